@@ -10,7 +10,13 @@ import copy, json, os, subprocess, sys, threading
 from harness.core import Case, VERIF
 from harness.canon import hx, tx, unhx, untx, exc_kind
 from harness.props.bip44_common import IMPL as B44_IMPL, FAM, apply_op, b44_out, Toggle
-from harness.props.c07 import pre_build
+from harness.props.c07 import pre_build as _pre07
+
+
+def pre_build():
+    from gen import gen_caches
+    _pre07()
+    gen_caches.main()
 from bip_utils import (Bip39MnemonicDecoder, Bip39MnemonicEncoder, Bip39Languages, MoneroMnemonicEncoder, MoneroLanguages, Bip32Path,
                        Bip39Mnemonic, SplToken, Bip44Changes)
 from bip_utils.utils.misc.cbor_indefinite_len_array import CborIndefiniteLenArrayEncoder
